@@ -91,11 +91,13 @@ def generate(tier):
         subsets = [list(s) for r in (1, 2, 3) for s in it.combinations(range(len(cand)), r)]
         if tier == "quick" and len(durs) == 3:
             subsets = subsets[::3]
-        for start in ("fresh", "continued", "override", "param-changed"):
+        for start in ("fresh", "continued", "override", "param-changed", "second-cycle"):
             for sub in subsets:
                 pts = [cand[i] for i in sub]
                 if max(pts) <= 0.0:
                     continue
+                if tier == "quick" and start in ("param-changed", "second-cycle") and len(sub) == 3:
+                    continue  # the history-dependent start modes take all subsets of size <= 2
                 for rel in (False, True):
                     cases.append({"rows": rows, "durs": durs, "form": "time_course", "grid": sub, "relative": rel, "start": start})
             for tps in (1, 3):
@@ -122,7 +124,7 @@ def check(case):
     x = X0
     segs = []  # (t0, x0, t1, params)
     params = dict(BASE)
-    if case["start"] in ("continued", "override", "param-changed"):
+    if case["start"] in ("continued", "override", "param-changed", "second-cycle"):
         sim.simulate(1.0, steps=2)
         segs.append((0.0, X0, 1.0, dict(BASE)))
         x = closed_form(1.0, 0.0, X0, {**BASE, "a": 0.0})
@@ -134,7 +136,26 @@ def check(case):
             # changed without simulating: the protocol's own values must still apply from its first step on
             sim.update_parameter("k", 5.0)
             params["k"] = 5.0
-    prior_rows = 3 if T > 0 else 0
+    grid_obj = None
+    if case["start"] == "second-cycle":
+        # a first protocol cycle that uses the very same time-grid object; the second cycle is the one checked
+        if case["form"] == "time_course":
+            cand0 = candidates(case["durs"])
+            rel0 = [cand0[i] for i in case["grid"]]
+            grid_obj = np.array(rel0 if case["relative"] else [T + p for p in rel0], dtype=float)
+            sim.simulate_protocol_time_course(protocol, grid_obj, time_points_as_relative=case["relative"])
+            if not case["relative"]:
+                grid_obj = grid_obj + sum(case["durs"])  # absolute points of the second cycle (a new array)
+        else:
+            sim.simulate_protocol(protocol, time_points_per_step=case["tps"])
+        t1 = T
+        for d, row in steps:
+            params = {**params, **row}
+            segs.append((t1, x, t1 + d, dict(params)))
+            x = closed_form(t1 + d, t1, x, {**params, "a": 0.0})
+            t1 += d
+        T = t1
+    prior_rows = (len(sim.get_result().unwrap_or_err().variables) if case["start"] == "second-cycle" else 3) if T > 0 else 0
     start = T
     bounds = []
     t = T
@@ -150,7 +171,8 @@ def check(case):
             cand = candidates(case["durs"])
             rel_pts = [cand[i] for i in case["grid"]]
             pts = rel_pts if case["relative"] else [start + p for p in rel_pts]
-            sim.simulate_protocol_time_course(protocol, np.array(pts, dtype=float), time_points_as_relative=case["relative"])
+            arr = grid_obj if (grid_obj is not None and case["relative"]) else np.array(pts, dtype=float)
+            sim.simulate_protocol_time_course(protocol, arr, time_points_as_relative=case["relative"])
             requested = [start + p for p in rel_pts]
         else:
             sim.simulate_protocol(protocol, time_points_per_step=case["tps"])
